@@ -25,6 +25,13 @@ def load_module(pid):
 def _run_task(args):
     pid, tier, seed, idx, fn, params = args
     t0 = time.time()
+    if fn == "__regress__":
+        # the committed regress cases run in a worker as well, so that the parent process (from
+        # which every worker is forked) never executes library code
+        try:
+            return ("regress", idx, run_regress(pid, load_module(pid), seed, None))
+        except BaseException:
+            return ("error", idx, "regress cases:\n%s" % traceback.format_exc())
     try:
         mod = load_module(pid)
         rec = Rec(pid, mod, tier, seed)
@@ -136,24 +143,23 @@ def main(argv=None):
             return 2
 
     try:
-        reg = run_regress(pid, mod, seed, sys.stdout)
+        reg = None
         tasks = mod.tasks(a.tier, seed)
         if a.only:
             tasks = [t for t in tasks if a.only in t.fn or a.only in repr(t.params)]
         jobs = [(pid, a.tier, seed, i, t.fn, t.params) for i, t in enumerate(tasks)]
         results = [None] * len(jobs)
+        jobs = [(pid, a.tier, seed, -1, "__regress__", {})] + jobs
         errors = []
         nproc = max(1, min(a.jobs, len(jobs)))
-        if nproc == 1:
-            it = map(_run_task, jobs)
-            pool = None
-        else:
-            ctx = multiprocessing.get_context("fork")
-            pool = ctx.Pool(nproc, maxtasksperchild=1)
-            it = pool.imap_unordered(_run_task, jobs, chunksize=1)
+        ctx = multiprocessing.get_context("fork")
+        pool = ctx.Pool(max(nproc, 2) if nproc > 1 else 1, maxtasksperchild=1)
+        it = pool.imap_unordered(_run_task, jobs, chunksize=1)
         for status, idx, out in it:
             if status == "ok":
                 results[idx] = out
+            elif status == "regress":
+                reg = out
             else:
                 errors.append(out)
         if pool:
